@@ -171,9 +171,77 @@ def _split_decision(idx, module, leaf):
     return None
 
 
+def _check_tol_leaf(r, idx, fi, C, tag, leaf, where, px, py, pt):
+    """Structural check of one value-returning tolerance path; tag is 'percentage' or 'absolute'."""
+    got = _split_decision(idx, fi.module, leaf)
+    if got is None:
+        ew = _entrywise_form(idx, fi.module, leaf)
+        if ew:
+            r.violation(C + ': comparison [%s]' % tag, 'entrywise test instead of the norm of the difference (%s in `%s`): the '
+                        'tolerance is applied per entry (max-norm), so an array whose entries each miss by less than the '
+                        'tolerance is accepted although its Frobenius distance exceeds it (e.g. [3.09, 4.09] vs [3, 4] with '
+                        'tolerance 0.1)' % (ew, short(leaf, 90)), where, expected='norm(x - y) <= tolerance', found=unparse(leaf))
+        elif isinstance(leaf, ast.Constant):
+            r.violation(C + ': comparison [%s]' % tag, 'returns the constant %r instead of comparing' % leaf.value, where)
+        else:
+            r.undecided(C + ': comparison [%s]' % tag, 'decision expression not recognised: %s' % short(leaf), where)
+        return
+    problem, diff, T = got
+    if problem:
+        r.violation(C + ': comparison [%s]' % tag, problem + ' -- the decision is no longer norm(x - y) <= tolerance '
+                    '(a difference exactly at the tolerance must pass, a larger one must fail)', where,
+                    expected='norm(x - y) <= tolerance', found=unparse(leaf))
+        return
+    dres = nf.classify(['%s - %s' % (px, py), '%s - %s' % (py, px)], diff)
+    if isinstance(dres, tuple):
+        r.violation(C + ': comparison [%s]' % tag, 'the compared quantity is not the difference of the two values: ' + dres[1],
+                    where, expected='norm(%s - %s)' % (px, py), found=unparse(diff))
+        return
+    if dres != nf.MATCH:
+        names = lib.names_in(diff)
+        if isinstance(diff, ast.BinOp) and isinstance(diff.op, ast.Sub) and names and (names <= {px} or names <= {py}):
+            r.violation(C + ': comparison [%s]' % tag, 'the difference `%s` involves only one of the two values'
+                        % unparse(diff), where, expected='%s - %s' % (px, py))
+        else:
+            r.undecided(C + ': comparison [%s]' % tag, 'compared quantity not recognised: %s' % short(diff), where)
+        return
+    if tag == 'percentage':
+        tb = {}
+        tres = nf.classify('_N(_R) * percentage_as_number(%s)' % pt, T, tb)
+        if tres == nf.MATCH and isinstance(tb['_N'], (ast.Attribute, ast.Name)) and _is_norm(idx, fi.module, tb['_N']):
+            ref = fl.name_of(tb['_R'])
+            if ref == px:
+                r.ok(C + ': comparison [percentage]', 'norm(x - y) <= norm(x) * p, relative to the first argument', where)
+            elif ref == py:
+                r.violation(C + ': comparison [percentage]', 'the percentage is taken of norm(%s), the SECOND argument '
+                            "(the student's value), not of the author's value: e.g. expected 10, student 9.01, 10%% "
+                            'now fails' % py, where, expected='norm(%s) * percentage' % px, found=unparse(T))
+            else:
+                r.undecided(C + ': comparison [percentage]', 'reference of the percentage not recognised: %s' % short(T), where)
+        elif isinstance(tres, tuple):
+            r.violation(C + ': comparison [percentage]', tres[1], where,
+                        expected='norm(%s) * percentage_as_number(%s)' % (px, pt), found=unparse(T))
+        elif isinstance(T, ast.Name) and T.id == pt:
+            r.violation(C + ': comparison [percentage]', 'a percentage string is compared as it stands (no conversion under '
+                        'isinstance(tolerance, str)): the comparison of a number with a str raises for every percentage tolerance', where,
+                        expected='norm(%s) * percentage_as_number(%s)' % (px, pt))
+        else:
+            r.undecided(C + ': comparison [percentage]', 'tolerance term not recognised: %s' % short(T), where)
+    else:
+        if isinstance(T, ast.Name) and T.id == pt:
+            r.ok(C + ': comparison [absolute]', 'norm(x - y) <= tolerance', where)
+        else:
+            tres = nf.classify('_N(_R) * percentage_as_number(%s)' % pt, T, {})
+            if tres == nf.MATCH:
+                r.violation(C + ': comparison [absolute]', 'the percentage conversion is applied when the tolerance is NOT a '
+                            'string (test inverted)', where, expected='isinstance(%s, str)' % pt)
+            else:
+                r.undecided(C + ': comparison [absolute]', 'tolerance term not recognised: %s' % short(T), where)
+
+
 def d1_within_tolerance(ctx, idx):
     r = ctx.rule('D1.TOL', 'within_tolerance decides norm(x - y) <= t (non-strict), t absolute or a percentage of '
-                 'norm(x); +-inf only equals itself', floor=6)
+                 'norm(x); +-inf only equals itself', floor=4)
     with r:
         fi = idx.func(WT)
         if len(fi.params) != 3:
@@ -181,155 +249,85 @@ def d1_within_tolerance(ctx, idx):
         px, py, pt = fi.params
         C = 'within_tolerance'
         paths = nf.decision_paths(fi.node.body)
-        inf_paths, tol_paths = [], []
         for p in paths:
             where = lib.loc(fi, p.leaf.stmt) if p.leaf.stmt is not None else fi.loc
             if p.leaf.kind == 'fall':
                 r.violation(C, 'a path falls off the end and returns None (falsy): matching values are graded wrong '
                             '(guards: %s)' % (' and '.join(unparse(g) for g in p.guards) or 'none'), where)
-                continue
-            if p.leaf.kind == 'raise':
+            elif p.leaf.kind == 'raise':
                 r.undecided(C, 'unreviewed raise inside within_tolerance: %s' % short(p.leaf.stmt), where)
-                continue
-            atoms = []
-            pos_inf = False
-            for g in p.guards:
-                ds = nf.disjuncts(g)
-                got = [_inf_atom(d, (px, py)) for d in ds]
-                if got and all(a is not None for a in got):
-                    pos_inf = True
-                    atoms.extend(got)
-            if pos_inf:
-                inf_paths.append((p, atoms, where))
+        paths = [p for p in paths if p.leaf.kind == 'ret']
+        understood = not idx.unreviewed
+        INF = float('inf')
+        ARR = mev.ArrayModel()
+
+        def path_for(x, y, tol):
+            env = {px: x, py: y, pt: tol, '__module__': fi.module}
+            taken = [p for p in paths if all(mev.ev(g, env) for g in p.guards)]
+            if len(taken) != 1:
+                raise AnalysisError('within_tolerance: %d paths match the model input (%r, %r, %r)' % (len(taken), x, y, tol))
+            return taken[0], env
+        try:
+            # ---- infinite operands (numbers)
+            bad = und = None
+            n_inf = 0
+            for x in (INF, -INF, 1.0):
+                for y in (INF, -INF, 1.0, 2.0):
+                    if abs(x) != INF and abs(y) != INF:
+                        continue
+                    for tol in (0.5, '10%', 0):
+                        n_inf += 1
+                        p, env = path_for(x, y, tol)
+                        where = lib.loc(fi, p.leaf.stmt)
+                        try:
+                            got = mev.ev(p.leaf.expr, env)
+                        except mev.Unsupported:
+                            tolform = _split_decision(idx, fi.module, p.leaf.expr) is not None or \
+                                _entrywise_form(idx, fi.module, p.leaf.expr)
+                            if tolform and bad is None:
+                                bad = ('for x=%r, y=%r the tolerance comparison `%s` is used: inf - inf is nan and nan <= t is False, so an '
+                                       'infinite answer no longer matches the same infinity (or an infinity is compared by norm at all)'
+                                       % (x, y, short(p.leaf.expr, 70)), where)
+                            elif not tolform and und is None:
+                                und = ('result for x=%r, y=%r not recognised: %s' % (x, y, short(p.leaf.expr)), where)
+                            continue
+                        if bool(got) != (x == y) and bad is None:
+                            bad = ('for x=%r, y=%r the result is %r (`%s`), expected %r: an infinite value must match only the same '
+                                   'infinity' % (x, y, got, short(p.leaf.expr, 60), x == y), where)
+            if bad and understood:
+                r.violation(C + ': infinity clause', bad[0], bad[1], expected='if x or y is +-inf: return x == y')
+            elif bad or und:
+                r.undecided(C + ': infinity clause', (bad or und)[0], (bad or und)[1])
             else:
-                tol_paths.append((p, where))
-        # ---- infinity clause
-        if not inf_paths:
-            if any(_mentions_inf(e) for p in paths for e in list(p.guards) + ([p.leaf.expr] if p.leaf.expr is not None else [])):
-                r.undecided(C + ': infinity clause', 'infinities are handled in a form that is not recognised', fi.loc)
-            else:
-                r.violation(C + ': infinity clause', 'no path handles infinite operands: inf - inf is nan and nan <= t is False, '
-                            'so an infinite answer no longer matches the same infinity (and inf matches nothing)', fi.loc,
-                            expected='if x or y is +-inf: return x == y')
-        for p, atoms, where in inf_paths:
-            have = set(atoms)
-            want = {(px, 1), (px, -1), (py, 1), (py, -1)}
-            if have != want:
-                missing = sorted('%s == %sinf' % (n, '-' if s < 0 else '') for n, s in want - have)
-                r.violation(C + ': infinity clause', 'the infinity test no longer covers %s: such a value falls through to the '
-                            'norm comparison (nan / inf <= t)' % ', '.join(missing), where,
-                            expected='x == inf or y == inf or x == -inf or y == -inf')
-            res = nf.classify('%s == %s' % (px, py), p.leaf.expr)
-            if res == nf.MATCH:
-                r.ok(C + ': infinity clause', 'returns x == y when either operand is +-inf', where)
-            elif isinstance(p.leaf.expr, ast.Constant):
-                r.violation(C + ': infinity clause', 'an infinite operand yields the constant %r instead of x == y'
-                            % p.leaf.expr.value, where, expected='x == y', found=unparse(p.leaf.expr))
-            elif isinstance(res, tuple):
-                r.violation(C + ': infinity clause', res[1], where, expected='x == y', found=unparse(p.leaf.expr))
-            else:
-                r.undecided(C + ': infinity clause', 'result for infinite operands not recognised: %s' % short(p.leaf.expr), where)
-            num_guard = [g for g in p.guards if nf.match('isinstance(_V, _T)', g) is not None]
-            ok_guard = any(nf.match('isinstance(%s, _T)' % n, g) is not None and
-                           unparse(nf.match('isinstance(%s, _T)' % n, g)['_T']).split('.')[-1] in ('Number', 'Real', 'float')
-                           for g in num_guard for n in (px, py))
-            if ok_guard:
-                r.ok(C + ': infinity clause [numbers only]', 'guarded by isinstance(x, Number)', where)
-            elif len(p.guards) == 1:
-                r.violation(C + ': infinity clause [numbers only]', 'the infinity test is no longer restricted to numbers: for array '
-                            'operands `x == inf or ...` has no truth value and grading of every array answer fails', where,
-                            expected='isinstance(x, Number)')
-            else:
-                r.undecided(C + ': infinity clause [numbers only]', 'guards not recognised: %s'
-                            % ' and '.join(unparse(g) for g in p.guards), where)
-        # ---- tolerance comparison
-        seen_pct = seen_abs = False
-        for p, where in tol_paths:
-            leaf = p.leaf.expr
-            pos = any(nf.match('isinstance(%s, str)' % pt, g) is not None for g in p.guards)
-            neg = any(nf.match('not isinstance(%s, str)' % pt, g) is not None for g in p.guards)
-            tag = 'percentage' if pos else 'absolute'
-            if pos and not neg:
-                seen_pct = True
-            else:
-                seen_abs = True
-            got = _split_decision(idx, fi.module, leaf)
-            if got is None:
-                ew = _entrywise_form(idx, fi.module, leaf)
-                if ew:
-                    r.violation(C + ': comparison [%s]' % tag, 'entrywise test instead of the norm of the difference (%s in `%s`): the '
-                                'tolerance is applied per entry (max-norm), so an array whose entries each miss by less than the '
-                                'tolerance is accepted although its Frobenius distance exceeds it (e.g. [3.09, 4.09] vs [3, 4] with '
-                                'tolerance 0.1)' % (ew, short(leaf, 90)), where, expected='norm(x - y) <= tolerance', found=unparse(leaf))
-                elif isinstance(leaf, ast.Constant):
-                    r.violation(C + ': comparison [%s]' % tag, 'returns the constant %r instead of comparing' % leaf.value, where)
+                r.ok(C + ': infinity clause', 'x == y for all %d model inputs with an infinite operand' % n_inf, fi.loc)
+            # ---- arrays never reach the infinity test
+            try:
+                for tol in (0.5, '10%'):
+                    p, env = path_for(ARR, ARR, tol)
+                    if _split_decision(idx, fi.module, p.leaf.expr) is None and not _entrywise_form(idx, fi.module, p.leaf.expr) \
+                            and not isinstance(p.leaf.expr, ast.Constant):
+                        raise mev.ArrayTruth()
+                r.ok(C + ': infinity clause [numbers only]', 'array operands go straight to the norm comparison', fi.loc)
+            except mev.ArrayTruth:
+                if understood:
+                    r.violation(C + ': infinity clause [numbers only]', 'the infinity test is no longer restricted to numbers: for array '
+                                'operands `x == inf` yields an array without a truth value and grading of every array answer fails',
+                                fi.loc, expected='isinstance(x, Number) and ...')
                 else:
-                    r.undecided(C + ': comparison [%s]' % tag, 'decision expression not recognised: %s' % short(leaf), where)
-                continue
-            problem, diff, T = got
-            if problem:
-                r.violation(C + ': comparison [%s]' % tag, problem + ' -- the decision is no longer norm(x - y) <= tolerance '
-                            '(a difference exactly at the tolerance must pass, a larger one must fail)', where,
-                            expected='norm(x - y) <= tolerance', found=unparse(leaf))
-                continue
-            dres = nf.classify(['%s - %s' % (px, py), '%s - %s' % (py, px)], diff)
-            if isinstance(dres, tuple):
-                r.violation(C + ': comparison [%s]' % tag, 'the compared quantity is not the difference of the two values: ' + dres[1],
-                            where, expected='norm(%s - %s)' % (px, py), found=unparse(diff))
-                continue
-            if dres != nf.MATCH:
-                names = lib.names_in(diff)
-                if isinstance(diff, ast.BinOp) and isinstance(diff.op, ast.Sub) and names and (names <= {px} or names <= {py}):
-                    r.violation(C + ': comparison [%s]' % tag, 'the difference `%s` involves only one of the two values'
-                                % unparse(diff), where, expected='%s - %s' % (px, py))
-                else:
-                    r.undecided(C + ': comparison [%s]' % tag, 'compared quantity not recognised: %s' % short(diff), where)
-                continue
-            if pos and not neg:
-                seen_pct = True
-                tb = {}
-                tres = nf.classify('_N(_R) * percentage_as_number(%s)' % pt, T, tb)
-                if tres == nf.MATCH and isinstance(tb['_N'], (ast.Attribute, ast.Name)) and _is_norm(idx, fi.module, tb['_N']):
-                    ref = fl.name_of(tb['_R'])
-                    if ref == px:
-                        r.ok(C + ': comparison [percentage]', 'norm(x - y) <= norm(x) * p, relative to the first argument', where)
-                    elif ref == py:
-                        r.violation(C + ': comparison [percentage]', 'the percentage is taken of norm(%s), the SECOND argument '
-                                    "(the student's value), not of the author's value: e.g. expected 10, student 9.01, 10%% "
-                                    'now fails' % py, where, expected='norm(%s) * percentage' % px, found=unparse(T))
-                    else:
-                        r.undecided(C + ': comparison [percentage]', 'reference of the percentage not recognised: %s' % short(T), where)
-                elif isinstance(tres, tuple):
-                    r.violation(C + ': comparison [percentage]', tres[1], where,
-                                expected='norm(%s) * percentage_as_number(%s)' % (px, pt), found=unparse(T))
-                elif isinstance(T, ast.Name) and T.id == pt:
-                    r.violation(C + ': comparison [percentage]', 'a percentage string is compared as it stands (no conversion): '
-                                'the comparison of a number with a str raises for every percentage tolerance', where)
-                else:
-                    r.undecided(C + ': comparison [percentage]', 'tolerance term not recognised: %s' % short(T), where)
-            else:
-                if isinstance(T, ast.Name) and T.id == pt:
-                    seen_abs = seen_abs or neg
-                    if neg:
-                        r.ok(C + ': comparison [absolute]', 'norm(x - y) <= tolerance', where)
-                    else:
-                        # no isinstance(tolerance, str) test on this path at all
-                        seen_abs = True
-                        r.ok(C + ': comparison [absolute]', 'norm(x - y) <= tolerance', where)
-                else:
-                    tb = {}
-                    tres = nf.classify('_N(_R) * percentage_as_number(%s)' % pt, T, tb)
-                    if tres == nf.MATCH and neg:
-                        r.violation(C + ': comparison [absolute]', 'the percentage conversion is applied when the tolerance is NOT a '
-                                    'string (test inverted)', where, expected='isinstance(%s, str)' % pt)
-                    else:
-                        r.undecided(C + ': comparison [absolute]', 'tolerance term not recognised: %s' % short(T), where)
-        if tol_paths and not seen_pct:
-            r.violation(C + ': comparison [percentage]', 'no path converts a percentage tolerance under isinstance(tolerance, str): '
-                        'percentage tolerances are compared as strings', fi.loc,
-                        expected='if isinstance(tolerance, str): tolerance = norm(x) * percentage_as_number(tolerance)')
-        if tol_paths and not seen_abs:
-            r.violation(C + ': comparison [absolute]', 'no path compares against a numeric tolerance as given', fi.loc)
+                    r.undecided(C + ': infinity clause [numbers only]', 'array operands reach a comparison', fi.loc)
+            # ---- finite operands: the tolerance comparison
+            for tag, tol in (('absolute', 0.5), ('percentage', '10%')):
+                leaves = {}
+                for x, y in ((1.0, 2.0), (2.0, 1.0), (ARR, ARR)):
+                    try:
+                        p, env = path_for(x, y, tol)
+                    except mev.ArrayTruth:
+                        continue        # reported above
+                    leaves.setdefault(unparse(p.leaf.expr), p)
+                for text, p in leaves.items():
+                    _check_tol_leaf(r, idx, fi, C, tag, p.leaf.expr, lib.loc(fi, p.leaf.stmt), px, py, pt)
+        except mev.Unsupported as e:
+            r.undecided(C, 'a guard of within_tolerance is outside the supported model evaluation (%s)' % e, fi.loc)
 
 
 def d1_percentage(ctx, idx):
@@ -642,12 +640,14 @@ def d3_consolidate(ctx, idx):
             raise AnalysisError('consolidate_results: unexpected parameters %s' % fi.params)
         p_res, p_ans, p_fail = ps
         loops = [l for l in lib.loops_of(fi.node)]
-        if not loops:
-            try:
-                _d3_model(r, fi, C, p_res, p_ans, p_fail)
-            except mev.Unsupported as e:
-                r.undecided(C + ': decision', 'loop-free form outside the supported model evaluation (%s)' % e, fi.loc)
+        try:
+            _d3_model(r, fi, C, p_res, p_ans, p_fail)
             return
+        except mev.Unsupported as e:
+            if not loops:
+                r.undecided(C + ': decision', 'form outside the supported model evaluation (%s)' % e, fi.loc)
+                return
+        # fallback: structural rules for the counting-loop form
         loops = [l for l in loops if isinstance(l, ast.For) and fl.mentions(l.iter, p_res)]
         if len(loops) != 1:
             raise AnalysisError('consolidate_results: expected exactly one loop over the results, found %d' % len(loops))
@@ -793,10 +793,9 @@ def d3_consolidate(ctx, idx):
 
 
 def _d3_model(r, fi, C, p_res, p_ans, p_fail):
-    """Loop-free consolidate_results (filter/comprehension form): decide the verdict by evaluating the decision
-    paths over model inputs (1-3 results with ok in {True, False, 'partial'}, failable_evals 0-2)."""
+    """Decide the verdict of consolidate_results by interpreting its body on model inputs (1-3 results with ok in
+    {True, False, 'partial'}, failable_evals 0-2), whatever its shape (counting loop, filter, lazy generator)."""
     import itertools
-    paths = nf.decision_paths(fi.node.body)
     answer = {'ok': True, 'grade_decimal': 1, 'msg': 'well done', 'expect': 'x'}
     pruned = {'ok': True, 'grade_decimal': 1, 'msg': 'well done'}
 
@@ -815,21 +814,18 @@ def _d3_model(r, fi, C, p_res, p_ans, p_fail):
                     if ans is None and (n > 1 or f > 0):
                         continue
                     results = [rec(k) for k in kinds]
-                    env = {p_res: results, p_ans: ans, p_fail: f}
-                    taken = [p for p in paths if all(mev.ev(g, env) for g in p.guards)]
-                    if len(taken) != 1:
-                        raise AnalysisError('consolidate_results: %d decision paths match a model input' % len(taken))
-                    p = taken[0]
-                    if p.leaf.kind == 'raise':
+                    env = {p_res: results, p_ans: dict(ans) if ans is not None else None, p_fail: f}
+                    try:
+                        kind, got, stmt = mev.call(fi.node, env)
+                    except mev.ModelRaise:
                         raise AnalysisError('consolidate_results: a model input raises')
-                    got = mev.ev(p.leaf.expr, env) if p.leaf.kind == 'ret' else None
                     k = sum(1 for x in kinds if x is not True)
                     must_fail = (n == 1 and k >= 1) or k > f
                     is_failing_result = any(got is x for x in results if x['ok'] is not True)
                     is_any_result = any(got is x for x in results)
                     is_answer = got == (pruned if ans is not None else {'ok': True, 'grade_decimal': 1, 'msg': ''})
                     desc = 'results ok=%s, failable_evals=%d' % (list(kinds), f)
-                    line = lib.loc(fi, p.leaf.stmt) if p.leaf.stmt is not None else fi.loc
+                    line = lib.loc(fi, stmt) if stmt is not None else fi.loc
                     if ans is None:
                         cls = 'no answer given (None)'
                         okv = is_answer if not must_fail else is_failing_result
@@ -1447,8 +1443,8 @@ MUTANTS = [
            "        Required('tolerance', default='0.01%'): Any(PercentageString, Number),", 'D5'),
     Mutant('tolerance-zero-refused', FG, "            Required('tolerance', default='5%'): Any(PercentageString, NonNegative(Number)),",
            "            Required('tolerance', default='5%'): Any(PercentageString, Positive(Number)),", 'D5'),
-    Mutant('negative-percentage-accepted', VF, "                if percent < 0:\n                    raise Invalid(\"Cannot have a negative percentage\")\n", "", 'D5'),
-    Mutant('zero-percent-refused', VF, "                if percent < 0:", "                if percent <= 0:", 'D5'),
+    Mutant('negative-percentage-accepted', VF, "                if not percent >= 0:\n                    raise Invalid(\"Cannot have a negative percentage\")\n", "", 'D5'),
+    Mutant('zero-percent-refused', VF, "                if not percent >= 0:", "                if not percent > 0:", 'D5'),
     Mutant('numerical-samples-unpinned', FG, "            Required('samples', default=1): 1,", "            Required('samples', default=1): Positive(int),", 'D5'),
     Mutant('numerical-failable-unpinned', FG, "            Required('failable_evals', default=0): 0\n", "            Required('failable_evals', default=0): NonNegative(int)\n", 'D5'),
     Mutant('nonnegative-from-one', VF, "    return All(thetype, Range(0, float('inf')))\n\ndef PercentageString", "    return All(thetype, Range(1, float('inf')))\n\ndef PercentageString", 'D5'),
